@@ -2,7 +2,7 @@
    PARTIAL: proved are (e) validation never drops a diagnostic and (d') a fatal parse error always leaves an Error and
    no tree.  "Exactly when well-formed" needs a grammar-level model of the parser; the check compares the implementation
    with the table-driven model (exact) and with documents whose (mal)formedness is known by construction. *)
-From AidlV Require Import Spec.Master Proofs.Master Proofs.Totality Model.LrDriver.
+From AidlV Require Import Spec.Master Proofs.Master Proofs.Totality Model.LrDriver Proofs.Keywords.
 
 Theorem C03_kept : forall defined a ds0 a' ds d,
   validate_file defined a ds0 = Ok (a', ds) -> In d ds0 -> In d ds.
@@ -19,6 +19,26 @@ Theorem C03_fatal_is_loud_partial : forall cx id fr p e,
   fr_ast fr = None /\ exists d, In d (fr_diags fr) /\ d_kind d = DError.
 Proof. exact add_content_failed_has_error. Qed.
 Print Assumptions C03_fatal_is_loud_partial.
+
+(* (f), at the lexer: whatever the surrounding text, a token that the regenerated lexer table classifies as IDENT is never
+   one of the AIDL keywords or reserved Java/C++ words the property names -- the longest-match tie goes to the later table
+   entry, and every such word is matched, whole, by a later entry (computed over the regenerated table) *)
+Theorem C03_ident_never_keyword : forall s off a text stop rest w,
+  lex1 s off = LTok a (N.of_nat ident_lex_idx) text stop rest -> In w named_words -> text <> w.
+Proof. exact ident_never_keyword. Qed.
+Print Assumptions C03_ident_never_keyword.
+
+(* ... for any table: a token of entry i is never a word that a later finite-language entry matches first *)
+Theorem C03_token_not_later_word : forall tbl fuel s off a i text stop rest w,
+  lex_next tbl fuel s off = LTok a (N.of_nat i) text stop rest -> covered tbl i w = true -> text <> w.
+Proof. exact token_not_later_word. Qed.
+Print Assumptions C03_token_not_later_word.
+
+(* non-vacuity: IDENT tokens exist, and the keyword next to one is classified differently *)
+Example C03_ex_ident : exists a stop rest, lex1 (lit "  interfaces x") 0 = LTok a (N.of_nat ident_lex_idx) (lit "interfaces") stop rest.
+Proof. vm_compute. do 3 eexists. reflexivity. Qed.
+Example C03_ex_keyword : exists a idx stop rest, lex1 (lit "  interface x") 0 = LTok a idx (lit "interface") stop rest /\ idx <> N.of_nat ident_lex_idx.
+Proof. vm_compute. do 4 eexists. split; [reflexivity|discriminate]. Qed.
 
 Definition C03_full : Prop :=
   forall cx id fr, add_content cx id = Added fr -> fr_ast fr = None -> exists d, In d (fr_diags fr) /\ d_kind d = DError.
